@@ -107,8 +107,10 @@ func Gen(seed uint64, tier string) any {
 			d.Fault = "wrongkey"
 		case x < 91:
 			d.Fault = "othername"
-		case x < 94:
+		case x < 93:
 			d.Fault = "parentname"
+		case x < 94:
+			d.Fault = "damagedkey"
 		case x < 97:
 			d.Fault = "sweep"
 		}
@@ -488,6 +490,15 @@ func runIn(sc *Scenario, res *core.Result, verbose bool) {
 			key = kp.other
 			tampered = true
 			res.Bump("fault.key_other_owner")
+		case "damagedkey":
+			// the right owner, but the key material does not parse (cut short / wrong size for the algorithm): not the matching key
+			dk := dns.Copy(kp.key).(*dns.KEY)
+			if n := len(dk.PublicKey); n > 8 {
+				dk.PublicKey = dk.PublicKey[:(n/2)&^3]
+			}
+			key = dk
+			tampered = true
+			res.Bump("fault.key_material_damaged")
 		case "parentname":
 			key = kp.parent // a key of an enclosing domain is not the signer's key
 			tampered = true
@@ -556,12 +567,20 @@ func runIn(sc *Scenario, res *core.Result, verbose bool) {
 // message): no result may depend on what the others do, and under the race
 // build no state may be shared between them.
 
+// sharedSigned is one signed message that every pair also verifies (Verify only reads its buffer)
+type sharedSigned struct {
+	buf []byte
+	sig *dns.SIG
+	key *dns.KEY
+}
+
 type pairTask struct {
-	k   *kernel.K
-	res *core.Result
-	sc  *Scenario
-	idx int
-	fin *int
+	shared *sharedSigned
+	k      *kernel.K
+	res    *core.Result
+	sc     *Scenario
+	idx    int
+	fin    *int
 }
 
 //go:norace
@@ -605,6 +624,19 @@ func (p *pairTask) RunEvent(time.Time) {
 		}
 		k.Unlock()
 	}
+	if p.shared != nil {
+		// all pairs verify the very same octets: a verifier must treat them as read-only
+		k.Yield("pair.verify.shared", p.idx)
+		verr, pan := verify(p.shared.sig, p.shared.key, p.shared.buf)
+		k.Lock()
+		p.res.Stats["oracle.Q2_shared_buffer_verifies"]++
+		if pan != "" {
+			p.res.Fail("Q4", "verify-panic-concurrent", "SIG.Verify panicked on a buffer that other verifiers were reading: %s", pan)
+		} else if verr != nil {
+			p.res.Fail("Q2", "verify-failed-concurrent", "a valid message verified by several goroutines at once did not verify in pair %d: %v", p.idx, verr)
+		}
+		k.Unlock()
+	}
 	k.Lock()
 	*p.fin++
 	k.Unlock()
@@ -629,8 +661,20 @@ func runParallel(sc *Scenario, res *core.Result, verbose bool) {
 	kernel.SetCurrent(k)
 	defer kernel.SetCurrent(nil)
 	fin := 0
+	var shared *sharedSigned
+	{
+		kp := keys[sc.Key%12]
+		m := sc.Msg.Build()
+		now := uint32(time.Now().Unix())
+		sg := &dns.SIG{}
+		sg.Algorithm, sg.KeyTag, sg.SignerName = kp.key.Algorithm, kp.key.KeyTag(), kp.key.Hdr.Name
+		sg.Inception, sg.Expiration = now-300, now+300
+		if b, err := sg.Sign(kp.priv, m); err == nil {
+			shared = &sharedSigned{buf: b, sig: sg, key: kp.key}
+		}
+	}
 	for i := 0; i < sc.Parallel; i++ {
-		k.Go("pair"+strconv.Itoa(i), &pairTask{k: k, res: res, sc: sc, idx: i, fin: &fin})
+		k.Go("pair"+strconv.Itoa(i), &pairTask{k: k, res: res, sc: sc, idx: i, fin: &fin, shared: shared})
 	}
 	out := k.Run(pairsDone{&fin, sc.Parallel})
 	res.Steps, res.Digest = k.Steps, k.Digest()
